@@ -63,9 +63,10 @@ func runTTL(rep *Report, replay string) {
 		ext := time.Hour
 		c.QueryAt(rows[6].idx, func(r column.Row) error { return nil })
 		c.Query(func(txn *column.Txn) error {
-			return txn.QueryAt(rows[6].idx, func(r column.Row) error { txn.TTL().Extend(ext); return nil })
+			// twice in one transaction: both extensions count
+			return txn.QueryAt(rows[6].idx, func(r column.Row) error { txn.TTL().Extend(ext); txn.TTL().Extend(ext); return nil })
 		})
-		rows[6].deadline += int64(ext)
+		rows[6].deadline += 2 * int64(ext)
 		c.Query(func(txn *column.Txn) error {
 			return txn.QueryAt(rows[7].idx, func(r column.Row) error { txn.TTL().Set(0); return nil })
 		})
@@ -118,7 +119,7 @@ func runTTL(rep *Report, replay string) {
 				case d > 0 && !near && d < now.UnixNano() && alive:
 					addV(fmt.Sprintf("[interval %v, %s] row %q is still present %v after its deadline (interval %v)", iv, label, r.name, time.Duration(now.UnixNano()-d), iv))
 				}
-				if alive && r.deadline >= 0 && has && stored != r.deadline && r.name != "short-extended" {
+				if alive && r.deadline >= 0 && has && stored != r.deadline {
 					addV(fmt.Sprintf("[interval %v, %s] row %q stores deadline %d, expected %d", iv, label, r.name, stored, r.deadline))
 				}
 				if !near {
